@@ -710,14 +710,18 @@ class FixedArray
         size_t len = match_dimension(choice);
         match_dimension(other);
         FixedArray<T> tmp(len); // should use default construction but V3f doens't initialize
-        for (size_t i=0; i < len; ++i) tmp[i] = choice[i] ? (*this)[i] : other[i];
+        // read through a const reference: the non-const operator[] refuses read-only arrays
+        const FixedArray<T> &self = *this;
+        for (size_t i=0; i < len; ++i) tmp[i] = choice[i] ? self[i] : other[i];
         return tmp;
     }
 
     FixedArray<T> ifelse_scalar(const FixedArray<int> &choice, const T &other) {
         size_t len = match_dimension(choice);
         FixedArray<T> tmp(len); // should use default construction but V3f doens't initialize
-        for (size_t i=0; i < len; ++i) tmp[i] = choice[i] ? (*this)[i] : other;
+        // read through a const reference: the non-const operator[] refuses read-only arrays
+        const FixedArray<T> &self = *this;
+        for (size_t i=0; i < len; ++i) tmp[i] = choice[i] ? self[i] : other;
         return tmp;
     }
 
